@@ -14,6 +14,7 @@ import SkNet.Lemmas.BreakCycles
 import SkNet.Lemmas.Bipartite
 import SkNet.Lemmas.Reach
 import SkNet.Lemmas.GetCycles
+import SkNet.Lemmas.Dedup
 
 namespace SkNet.C12
 open SkNet SkNet.Connectivity SkNet.Cycles
@@ -402,6 +403,68 @@ theorem getCycles_sound (fuel : Nat) (nCC : Bool → Nat) (labels : Bool → Lis
         rcases dedupCycles_mem d cycles [] [] c hcm with hh | ⟨c0, hc0, rfl⟩
         · cases hh
         · exact isSimpleCycle_rollMin (hall c0 hc0)
+
+/-- ★ `getCycles_sound` (no duplicates): no two returned cycles are the same cycle — equal up to rotation in a
+    directed graph, equal as node sets in an undirected graph (the identification `get_cycles` itself uses). -/
+theorem getCycles_distinct (fuel : Nat) (nCC : Bool → Nat) (labels : Bool → List Nat) (m : Mat)
+    (directed : Option Bool) (d : Bool) (cs : List (List Nat))
+    (hc : m.Canon) (hsq : m.nRow = m.nCol)
+    (hd : resolveDirected m directed = .ok d)
+    (hlen : (labels d).length = m.nRow)
+    (h : getCyclesWith fuel nCC labels m directed = .ok (some cs)) :
+    cs.Pairwise fun a b => if d = true then ¬ SameRotation a b else ¬ SameNodes a b := by
+  have hsimple := getCycles_sound fuel nCC labels m directed d cs hc hsq hd hlen h
+  -- the self-loops alone: distinct single nodes
+  have hloops : ((selfLoops m).map fun v => [v]).Pairwise
+      fun a b => if d = true then ¬ SameRotation a b else ¬ SameNodes a b := by
+    rw [List.pairwise_map]
+    have hnd : (selfLoops m).Pairwise (· ≠ ·) :=
+      List.nodup_iff_pairwise_ne.mp ((List.filter_sublist (l := List.range m.nRow)).nodup List.nodup_range)
+    refine hnd.imp ?_
+    intro a b hab
+    split
+    · intro ⟨k, hk, hr⟩
+      simp only [List.length_singleton, Nat.lt_one_iff] at hk
+      subst hk
+      simp [rotate] at hr
+      exact hab hr
+    · intro ⟨h1, _⟩
+      exact hab (by simpa using h1 a (by simp))
+  unfold getCyclesWith at h
+  simp only [hd] at h
+  split at h
+  · cases h; exact hloops
+  · split at h
+    · cases h; exact hloops
+    · split at h
+      · cases h
+      · rename_i cycles hcy
+        cases h
+        have hpw := dedupCycles_pairwise d cycles [] [] (by simp) List.Pairwise.nil
+        have hmem := dedupCycles_mem d cycles [] []
+        -- every returned cycle is duplicate-free with its least node first
+        have hgood : ∀ c ∈ dedupCycles d cycles ([], []), c.Nodup ∧ MinFirst c := by
+          intro c hcm
+          refine ⟨(hsimple c hcm).1, ?_⟩
+          rcases hmem c hcm with hh | ⟨c0, _, rfl⟩
+          · cases hh
+          · apply rollMin_minFirst
+            intro hn
+            have := (rollMin_ne_nil (c := c0))
+            have h3 := (hsimple _ hcm).2.2.1
+            rw [hn] at h3
+            simp [rollMin, IsClosedChain] at h3
+        refine List.Pairwise.imp_of_mem ?_ hpw
+        intro a b ha hb hkey
+        cases d with
+        | true =>
+          simp only [↓reduceIte]
+          intro hrot
+          exact hkey (by simpa [cycleKey] using eq_of_sameRotation (hgood a ha).1 (hgood a ha).2 (hgood b hb).2 hrot)
+        | false =>
+          simp only [Bool.false_eq_true, ↓reduceIte]
+          intro hsame
+          exact hkey (by simpa [cycleKey] using sortNat_eq_of_sameNodes (hgood a ha).1 (hgood b hb).1 hsame)
 
 /-- the directed square with a chord 1 → 3 (the repository's own test): two cycles, both genuine -/
 def chordSquare : Mat :=
